@@ -31,8 +31,8 @@ RULE = ("case = DUT (MagicMemoryCL | stream.MagicMemoryRTL | MagicMemoryFL) x po
         "64-byte window) and word AMOs x source gaps x sink back-pressure x scheduler; faults stop at a seeded cycle; "
         "non-trivial = >=2 ports touched a common byte with at least one write, or >=1 read returned non-zero data "
         "written earlier; distinct = case digest")
-TIERS = {"quick": {"runs": 480, "budget_s": 100, "chunk": 4},
-         "thorough": {"runs": 40000, "budget_s": 1800, "chunk": 8}}
+TIERS = {"quick": {"runs": 2400, "budget_s": 100, "chunk": 4},
+         "thorough": {"runs": 1000000, "budget_s": 1800, "chunk": 8}}
 REAL = ["MagicMemoryCL", "stream.MagicMemoryRTL (RandomStall, InelasticDelayPipe)", "MagicMemoryFL + AMO_FUNS",
         "fast_bytearray_funcs", "DelayPipeDeqCL / DelayPipeSendCL / StallCL", "MemMsg", "schedulers, greenlets for FL"]
 STUB = ["sources / recording sinks", "seeded Random behind StallCL / RandomStall (S5)", "byte-dictionary model",
